@@ -55,26 +55,28 @@ func (sk *storeKey) clone(newId uint64) *storeKey {
 					prev:    newSl.tail,
 					element: element,
 				}
+				if newSl.tail != nil {
+					newSl.tail.next = item
+				}
 				newSl.tail = item
 				if newSl.head == nil {
 					newSl.head = item
 				}
+				newSl.count++
 			}
 			payload = &newSl
-		} else if flagHasOne(sk.flags, FLAG_KEY_TYPE_HASH_TABLE) {
-			m := sk.payload.(map[string]string)
-			newMap := make(map[string]string, len(m))
-			for k, v := range m {
-				newMap[k] = v
+		} else if flagHasOne(sk.flags, FLAG_KEY_TYPE_HASH_TABLE) || flagHasOne(sk.flags, FLAG_KEY_TYPE_SET) {
+			// hash and set payloads are dictionaries of immutable values; the
+			// items are duplicated so the copy never shares a mutable item
+			src := sk.payload.(*redisDict)
+			dict := src.clone()
+			for i, item := range dict.buckets {
+				if item != nil {
+					dup := *item
+					dict.buckets[i] = &dup
+				}
 			}
-			payload = newMap
-		} else if flagHasOne(sk.flags, FLAG_KEY_TYPE_SET) {
-			m := sk.payload.(map[string]struct{})
-			newMap := make(map[string]struct{}, len(m))
-			for k := range m {
-				newMap[k] = struct{}{}
-			}
-			payload = newMap
+			payload = dict
 		} else {
 			panic("unexpected payload type")
 		}
